@@ -33,6 +33,7 @@ type crashScenario struct {
 	Max        int      `json:"max_ticks"`
 	MaxCrashes int      `json:"max_crashes"`
 	IdleBias   bool     `json:"idle_bias,omitempty"`
+	Base       string   `json:"base,omitempty"` // stream start offset: "" = 1000, "0", "big" = 2^32+7
 }
 
 type runRec struct {
@@ -152,6 +153,7 @@ func boundaryIndex(items []sItem, off int64) int {
 // crashExec runs one complete history: start, feed under explorer control, crash
 // where the explorer says, restart, ... until a run completes the stream.
 func crashExec(t *testing.T, scn crashScenario, ch *mc.Chooser) (rec crashRec, machinery string) {
+	setBase(scn.Base)
 	msg := bubble(t, func() {
 		env := newAofEnv(t)
 		items := buildStream(scn.Syms)
